@@ -323,7 +323,7 @@ const EXH_OPS: usize = 9;
 
 fn exh_op(k: usize, lang: &str) -> Op {
     let (a, b) = match lang {
-        "de" => ("straße", "über"),
+        "de" | "xd" => ("straße", "über"),
         "ru" => ("ёлка", "еж"),
         "fr" => ("cœur", "élève"),
         _ => ("metal", "mailbox"),
@@ -912,8 +912,35 @@ impl History {
             }
             // observe the live ids
             let read_now = read_always || opk + 1 == nops || cx.rng.chance(1, 4);
+            // now and then a reader does something to a store while it holds the result buffer (copying hits into another
+            // store is the obvious use): add a record to a live id - the reader's own or another - from inside the closure
+            let nested: Option<(usize, usize, usize, String, usize)> = if !via_bridge && !model.is_empty() && cx.rng.chance(1, 12) {
+                let live: Vec<usize> = model.keys().cloned().collect();
+                let reader = *cx.rng.pick(&live);
+                let target = *cx.rng.pick(&live);
+                Some((reader, target, 700 + cx.rng.below(100), format!("{} {}", cx.rng.pick(&words), cx.rng.pick(&words)), cx.rng.below(9)))
+            } else {
+                None
+            };
             for (mid, (_, last)) in model.iter() {
-                if !read_now || (!read_always && opk + 1 != nops && cx.rng.chance(1, 2)) {
+                let is_reader = nested.as_ref().map(|n| n.0 == *mid).unwrap_or(false);
+                if !is_reader && (!read_now || (!read_always && opk + 1 != nops && cx.rng.chance(1, 2))) {
+                    continue;
+                }
+                if is_reader {
+                    let (_, target, rid, title, ra) = nested.clone().unwrap();
+                    hist.push(format!("read({}) and, inside the reader, add({},{},{:?},{})", mid, target, rid, title, ra));
+                    cx.ctx(format!("C20 lang={} history={:?}", lang, hist));
+                    let got: Hits = using_results(*mid, |b| {
+                        add_record(target, rid, &title, ra);
+                        b.iter().map(|r| (r.id, r.title.clone())).collect()
+                    });
+                    cx.eval();
+                    cx.count("observations");
+                    cx.count("reads that add a record from inside the reader");
+                    if &got != last {
+                        cx.fail("result-buffer-differs-from-model", json!({"lang": lang, "via_bridge": via_bridge, "history": hist, "id": mid, "got": got, "expected": last}));
+                    }
                     continue;
                 }
                 let got: Hits = if via_bridge {
@@ -930,6 +957,9 @@ impl History {
                 if &got != last {
                     cx.fail("result-buffer-differs-from-model", json!({"lang": lang, "via_bridge": via_bridge, "history": hist, "id": mid, "got": got, "expected": last}));
                 }
+            }
+            if let Some((_, target, rid, title, ra)) = nested {
+                model.get_mut(&target).unwrap().0.add(&(rid, title, ra));
             }
             if model.len() >= 2 && model.values().filter(|m| !m.1.is_empty()).count() >= 2 {
                 cross = true;
@@ -985,7 +1015,7 @@ impl Prop for History {
         match self.0 {
             Which::NoCrash => vec![("searches", 20000, 200000), ("searches with hits", 5000, 50000), ("joined-record hits (two spans from a one-word query)", 50, 500), ("non-ASCII queries", 2000, 20000), ("limit 0", 200, 2000), ("limit 65536", 200, 2000), ("histories with boundary-value record ids", 2000, 20000), ("long-text searches", 500, 5000), ("long-text searches with a query over 255 characters", 100, 1000), ("corpus-store searches", 300, 3000), ("long-text cases with a giant word or a 1000+ word title", 20, 200), ("soak searches on one store", 600000, 2500000), ("most searches on one store max ", 66000, 66000), ("soak stores with more than 2^16 records", 2, 8), ("adds re-using the id of an earlier record", 5000, 50000), ("registry: searches", 10000, 300000), ("registry: searches with hits", 1500, 45000), ("registry: limit changes", 5000, 150000)],
             Which::NoStale => vec![("search after add following an earlier search", 2000, 20000), ("search after clear following an earlier search", 500, 5000), ("search after limit following an earlier search", 500, 5000), ("empty-query search after a mutation following an earlier search", 1000, 10000), ("exhaustive histories", 20000, 200000), ("histories on a crowded store", 2000, 20000), ("histories that clear and refill a crowded store", 2000, 20000), ("histories growing a store past 64/128/256/512 records with searches in between", 200, 5000), ("histories growing a store past 1024 records with searches in between", 60, 1500), ("soak searches on one store", 1000000, 4000000), ("search repeating the previous query after a mutation", 2000, 20000), ("operations on another store of the same thread inside a history", 3000, 30000), ("registry-driven searches compared with a fresh store", 5000, 50000), ("adds re-using the id of an earlier record", 3000, 30000), ("histories whose searches run on other threads than the adds (the store is moved there and back)", 1500, 15000), ("histories whose reference stores are built and searched on threads of their own", 3000, 30000), ("histories with a very long word next to a threshold match", 2000, 20000)],
-            Which::Registry => vec![("observations", 20000, 200000), ("observations with >= 2 live ids holding results", 2000, 20000), ("destroy", 300, 3000), ("searches", 3000, 30000), ("histories over 4-20 store ids", 1000, 10000), ("bursts of 45-120 records", 300, 3000), ("stores created with another language than their neighbours", 3000, 30000), ("searches repeating the text just sent to another id", 2000, 20000), ("histories whose result buffers are read only now and then", 5000, 50000)],
+            Which::Registry => vec![("observations", 20000, 200000), ("observations with >= 2 live ids holding results", 2000, 20000), ("destroy", 300, 3000), ("searches", 3000, 30000), ("histories over 4-20 store ids", 1000, 10000), ("bursts of 45-120 records", 300, 3000), ("stores created with another language than their neighbours", 3000, 30000), ("searches repeating the text just sent to another id", 2000, 20000), ("histories whose result buffers are read only now and then", 5000, 50000), ("reads that add a record from inside the reader", 5000, 50000)],
         }
     }
     fn run(&self, cx: &mut Cx, stream: &str, idx: u64) {
